@@ -66,16 +66,20 @@ pub struct FutCfg {
     pub roundtrip: Vec<bool>,
     /// consumers that leave (PollDrop / DirectDrop) wait for each other and drop at the same instant
     pub sync_drop: bool,
+    /// per sink: not a task at all but a plain thread that uses the direct try_send method of the
+    /// futures sender (retrying on Full) - parked stream tasks must hear about its values as well
+    pub direct_sinks: Vec<bool>,
 }
 
 impl FutCfg {
     pub fn describe(&self) -> String {
         format!(
-            "fut {} cap={} spins={:?} sinks(values,drop)={:?} streams={:?} converted={:?} sync_drop={} policy={} plan=[{}]",
+            "fut {} cap={} spins={:?} sinks(values,drop)={:?} direct-try_send={:?} streams={:?} converted={:?} sync_drop={} policy={} plan=[{}]",
             self.fl.name(),
             self.cap,
             self.spins,
             self.sinks,
+            self.direct_sinks,
             self.streams,
             self.roundtrip,
             self.sync_drop,
@@ -247,7 +251,9 @@ pub fn gen_cfg(rng: &mut Rng, small: bool) -> FutCfg {
         }
     }
     let roundtrip: Vec<bool> = streams.iter().map(|_| rng.chance(1, 3)).collect();
+    let direct_sinks: Vec<bool> = (0..sinks.len()).map(|_| crowd == 0 && rng.chance(1, 5)).collect();
     FutCfg {
+        direct_sinks,
         fl,
         cap,
         spins,
@@ -351,6 +357,35 @@ fn probe_answer(sh: &Shared, tid: usize, progress: bool, what: &str, kind: &str,
 
 fn sink_thread(mut tx: TxH, values: u32, drop_at_end: bool, pidx: u32, sh: &Shared, tid: usize, cfg: &FutCfg, n: u64) {
     let mut k = 0;
+    if cfg.direct_sinks.get(pidx as usize).copied().unwrap_or(false) {
+        // plain thread, never parked: try_send with retries; gives up on a queue that stays full
+        // once every task is parked or done
+        let mut idle = 0u64;
+        while k < values && !sh.shutdown.load(SeqCst) {
+            let id = (((pidx + 1) as u64) << 32) | k as u64;
+            match tx.try_send(id) {
+                SendOut::Ok => {
+                    sh.progress_ops.fetch_add(1, SeqCst);
+                    k += 1;
+                    idle = 0;
+                }
+                SendOut::Full => {
+                    let others_idle = (0..MAXT).all(|t| t == tid || !sh.is_task[t].load(SeqCst) || sh.state[t].load(SeqCst) != RUNNING);
+                    if others_idle {
+                        idle += 1;
+                        if idle > 50 {
+                            break;
+                        }
+                    } else {
+                        idle = 0;
+                    }
+                    std::thread::yield_now();
+                }
+                _ => break,
+            }
+        }
+        k = values;
+    }
     'outer: while k < values {
         let id = (((pidx + 1) as u64) << 32) | k as u64;
         loop {
@@ -653,7 +688,7 @@ pub fn run_once(cfg: &FutCfg, shard: &mut Shard) -> (u64, bool, bool) {
         let my = tid;
         notes[my] = Some(tx.note.clone());
         shared.state[my].store(RUNNING, SeqCst);
-        shared.is_task[my].store(true, SeqCst);
+        shared.is_task[my].store(!cfg.direct_sinks.get(pi).copied().unwrap_or(false), SeqCst);
         joins.push(
             std::thread::Builder::new()
                 .name(format!("fut-sink{}", my))
